@@ -297,40 +297,59 @@ def rootVersions (d : PDB) (s : SName) : List Nat :=
     | .root s' v => if s' = s then some v else none
     | _ => none
 
+/-- the history (free hash) the working tree has once saved. -/
+def Tree.nextHist (t : Tree) : Hist := t.hist ++ [(t.workingVersion, t.pend)]
+
+/-- what `SaveVersion` hands to the DB handle in one `ndb.Commit`: everything
+staged by `Set`/`Remove`, the root record, the fast-index stamp. -/
+def Tree.saveOps (t : Tree) : List WOp :=
+  t.staged ++ [.set (.root t.name t.workingVersion) (.root ⟨t.nextHist, t.kv⟩)]
+    ++ (if t.fast then [.set (.stamp t.name) (.stampV t.workingVersion)] else [])
+
+def Tree.saved (t : Tree) : Tree :=
+  { t with hist := t.nextHist, pend := [], version := t.workingVersion, staged := [] }
+
 /-- `MutableTree.SaveVersion`. -/
 def Tree.save (a : App) (t : Tree) : Except Err (App × Tree) :=
-  let v := t.workingVersion
-  let h : Hist := t.hist ++ [(v, t.pend)]
-  match a.look (.root t.name v) with
+  match a.look (.root t.name t.workingVersion) with
   | some (.root sn) =>
     -- the version exists: same hash → adopt the persisted tree and drop the session; else fail
-    if sn.hist = h ∧ (sn.kv = [] ↔ t.kv = []) then
-      .ok (a, { t with hist := sn.hist, kv := sn.kv, pend := [], version := v, staged := [] })
+    if sn.hist = t.nextHist ∧ (sn.kv = [] ↔ t.kv = []) then
+      .ok (a, { t with hist := sn.hist, kv := sn.kv, pend := [], version := t.workingVersion, staged := [] })
     else .error .versionExists
   | some _ => .error .corrupt
-  | none =>
-    let ops := t.staged ++ [.set (.root t.name v) (.root ⟨h, t.kv⟩)]
-      ++ (if t.fast then [.set (.stamp t.name) (.stampV v)] else [])
-    .ok (a.emit ops, { t with hist := h, pend := [], version := v, staged := [] })
+  | none => .ok (a.emit t.saveOps, t.saved)
 
-/-- `PruneVersionsTo(to)`: the root record of every existing version `≤ to`
-(existence through the DB handle), then its own `ndb.Commit`. -/
+/-- the deletes `PruneVersionsTo(to)` stages: the root record of every existing
+version `≤ to` (existence through the DB handle). -/
+def pruneDels (a : App) (s : SName) (to : Nat) : List WOp :=
+  ((rootVersions a.db s).filter fun v => v ≤ to ∧ (a.look (.root s v)).isSome).map
+    fun v => .del (.root s v)
+
+/-- `PruneVersionsTo(to)`, with its own `ndb.Commit`. -/
 def Tree.prune (a : App) (t : Tree) (to : Nat) : App :=
-  let vs := (rootVersions a.db t.name).filter fun v => v ≤ to ∧ (a.look (.root t.name v)).isSome
-  if vs.isEmpty then a else a.emit (vs.map fun v => .del (.root t.name v))
+  let ds := pruneDels a t.name to
+  if ds.isEmpty then a else a.emit ds
 
-/-- `bptree.Store.Commit` (the iavl store has the same shape). -/
+/-- the pruning rule of `bptree.Store.Commit` (the iavl store has the same one),
+on the tree as saved: `some toRelease` when versions `≤ toRelease` are released. -/
+def Tree.pruneTo (cfg : Cfg) (t : Tree) : Option Nat :=
+  let previous := t.version - 1
+  if cfg.keepRecent < previous then
+    let toRelease := previous - cfg.keepRecent
+    if toRelease ≥ t.initialVersion ∧ (cfg.keepEvery = 0 ∨ toRelease % cfg.keepEvery ≠ 0) then
+      some toRelease
+    else none
+  else none
+
+/-- `bptree.Store.Commit`. -/
 def Tree.commit (a : App) (t : Tree) : Except Err (App × Tree) :=
   match Tree.save a t with
   | .error e => .error e
   | .ok (a, t) =>
-    let previous := t.version - 1
-    if a.cfg.keepRecent < previous then
-      let toRelease := previous - a.cfg.keepRecent
-      if toRelease ≥ t.initialVersion ∧ (a.cfg.keepEvery = 0 ∨ toRelease % a.cfg.keepEvery ≠ 0) then
-        .ok (Tree.prune a t toRelease, t)
-      else .ok (a, t)
-    else .ok (a, t)
+    match t.pruneTo a.cfg with
+    | some to => .ok (Tree.prune a t to, t)
+    | none => .ok (a, t)
 
 /-! ## rootmulti.Commit -/
 
